@@ -19,6 +19,21 @@ open Exetera Exetera.PyRt Exetera.Transforms Exetera.Gen.Kernels Exetera.GenK
 
 abbrev St := numeric_bool_transform.St
 
+/-- `val in (c1, …)` on a one-element array is the membership of its element -/
+theorem arrInTupleE_one (x : Int) (cs : List Int) : arrInTupleE [x] cs = .ok (cs.any (fun c => c == x)) := rfl
+
+/-- … and a ValueError on an array of any other length (what numpy and numba do) -/
+theorem arrInTupleE_ne_one (a cs : List Int) (h : a.length ≠ 1) :
+    ∃ e, arrInTupleE a cs = .error e ∧ e.tag = "value_error" := by
+  match a, h with
+  | [], _ => exact ⟨_, rfl, rfl⟩
+  | [_], h => exact absurd rfl h
+  | _ :: _ :: _, _ => exact ⟨_, rfl, rfl⟩
+
+example : arrInTupleE [121] [49, 89, 121, 84, 116] = .ok true := rfl
+example : arrInTupleE [50] [49, 89, 121, 84, 116] = .ok false := rfl
+example : (arrInTupleE [] [49, 89]).toOption = none := rfl
+
 /-- loop L2, `while byte_start_idx < length and column_vals[col_offset + row_start_idx + byte_start_idx] == 32: byte_start_idx += 1`,
     follows `skipLead vals base n b` (`n = length - byte_start_idx`, `base = col_offset + row_start_idx`) -/
 theorem lead_transfer (vals : Bytes) (base : Nat) :
